@@ -49,3 +49,10 @@ Theorem C15_cci : forall (F : Type) (O : Ops F) bs (sm : @Sma F) (md : @Mad F),
   map3 (fun tp sma mad => if eqb O mad (zero O) then zero O else div O (sub O tp sma) (mul O mad (c0_015 O)))
        (map (typical O) bs) (sma_outs' O sm (map (typical O) bs)) (mad_outs O md (map (typical O) bs)).
 Proof. intros. apply cci_wiring. Qed.
+
+(* exact arithmetic: BollingerBands.average is SimpleMovingAverage of the same period on every stream *)
+From Coq Require Import Reals.
+From TA Require Import XR Proofs.XBase Proofs.XSma Proofs.XSd.
+Theorem C15_bb_average_is_sma : forall p mu b s xs, bb_new XROps p (Fin mu) = Ok b -> sma_new XROps p = Ok s ->
+  map (fun o => hd XNaN o) (XSd.bb_outs b (map Fin xs)) = sma_outs s (map Fin xs).
+Proof. exact bb_average_is_sma. Qed.
